@@ -285,5 +285,44 @@ where
     A: FnOnce() -> RA,
     B: FnOnce() -> RB,
 {
+    #[cfg(feature = "verif_sched")]
+    if sched::b_first() {
+        let rb = oper_b();
+        let ra = oper_a();
+        return (ra, rb);
+    }
     (oper_a(), oper_b())
+}
+
+/// Verification-only hook: a thread-local chooser deciding which closure of the sequential
+/// `join` runs first. Default (no chooser installed): `oper_a` first, i.e. unchanged behaviour.
+#[cfg(feature = "verif_sched")]
+pub mod sched {
+    extern crate std;
+    use alloc::boxed::Box;
+    use core::cell::RefCell;
+
+    std::thread_local! {
+        static CHOOSER: RefCell<Option<Box<dyn FnMut() -> bool>>> = const { RefCell::new(None) };
+    }
+
+    /// Installs (Some) or removes (None) the chooser for the current thread. The chooser is
+    /// asked once per `join` call and returns `true` if `oper_b` is to run first.
+    pub fn set_chooser(f: Option<Box<dyn FnMut() -> bool>>) {
+        CHOOSER.with(|c| *c.borrow_mut() = f);
+    }
+
+    pub(crate) fn b_first() -> bool {
+        // The chooser is taken out while it runs so that nested joins inside the closures
+        // (which run after this returns) find it in place again.
+        let f = CHOOSER.with(|c| c.borrow_mut().take());
+        match f {
+            None => false,
+            Some(mut f) => {
+                let r = f();
+                CHOOSER.with(|c| *c.borrow_mut() = Some(f));
+                r
+            }
+        }
+    }
 }
